@@ -1757,13 +1757,58 @@ func (u *Unit) renamedTo(e *Env, name string) string {
 	}
 	cur := namedLocals(fn)
 	for _, l := range h.Locals {
-		if l.Name != name || l.Ord >= len(cur) || len(cur) != len(h.Locals) {
+		if l.Name != name {
 			continue
 		}
-		c := cur[l.Ord]
-		if c.Comment != name && !known[c.Comment] && ptrElem(c.Type()).String() == l.Type {
-			u.note("contract name " + name + " re-bound to the renamed local " + c.Comment)
-			return c.Comment
+		if len(cur) == len(h.Locals) {
+			if l.Ord >= len(cur) {
+				continue
+			}
+			c := cur[l.Ord]
+			if c.Comment != name && !known[c.Comment] && ptrElem(c.Type()).String() == l.Type {
+				u.note("contract name " + name + " re-bound to the renamed local " + c.Comment)
+				return c.Comment
+			}
+			continue
+		}
+		// locals were added or removed as well: align the declaration order from the
+		// front (everything declared before the renamed local is where it was) and from
+		// the back; accept a candidate only if the alignments that apply agree
+		cand := ""
+		try := func(ord int, same func(i int) bool) {
+			if ord < 0 || ord >= len(cur) {
+				return
+			}
+			c := cur[ord]
+			if c.Comment == name || known[c.Comment] || ptrElem(c.Type()).String() != l.Type || !same(ord) {
+				return
+			}
+			if cand == "" {
+				cand = c.Comment
+			} else if cand != c.Comment {
+				cand = "?"
+			}
+		}
+		try(l.Ord, func(ord int) bool {
+			for i := 0; i < ord && i < len(h.Locals); i++ {
+				if cur[i].Comment != h.Locals[i].Name && known[cur[i].Comment] {
+					return false
+				}
+			}
+			return true
+		})
+		off := len(cur) - len(h.Locals)
+		try(l.Ord+off, func(ord int) bool {
+			for i := ord + 1; i < len(cur); i++ {
+				if j := i - off; j >= 0 && j < len(h.Locals) && cur[i].Comment != h.Locals[j].Name && known[cur[i].Comment] {
+					return false
+				}
+			}
+			return true
+		})
+		if cand != "" && cand != "?" {
+			u.note("contract name " + name + " re-bound to the renamed local " + cand)
+			return cand
 		}
 	}
 	return ""
